@@ -157,6 +157,14 @@ def build(ctx):
             'np.all(res.__array__()) arm of the == fallback and its `except Exception`: == on the universe returns a bool and does not raise',
             'numpy scalars, Timestamp, datetime64, datetime.date: bounded only (known finding C14:transitivity:scalars-under-== lives there)']
 
+    # ------------------------------------------------------------------ the theory's comparison axioms against CPython, on every run
+    def axiom_validation():
+        probs = tv.validate_against_cpython()
+        if probs:
+            raise OutOfSubset('comparison axioms of the value universe disagree with CPython: %s' % '; '.join(probs[:5]))
+        ctx.trust(tv.VALIDATION_NOTE)
+    ctx.guarded('axiom validation', axiom_validation)
+
     # ------------------------------------------------------------------ eq body against the recursive spec
     def body_section():
         rets, raises, ex = run_eq(ctx, me, x, y, 'eq')
